@@ -232,6 +232,12 @@ func runHostile(c HostileCase) vh.Result {
 	if reaches {
 		res.Classes = append(res.Classes, "reaches-parser-or-oversize")
 	}
+	// "rejected and counted": the counters must still be readable after the hostile input (a label value taken from a
+	// record that the exporter refuses makes the /metrics endpoint answer 500 for everything)
+	if _, gerr := vh.GatherErr(ld.GetMetricGatherer()); gerr != "" {
+		res.Violation = vh.Fail("robust:metrics-export-fails", "after the hostile input the agent's metric gatherer returns an error (the /metrics endpoint answers 500): %.500s\nfirst bad input of connection 0: %.120q", gerr, firstBad(c.Conns[0]))
+		return res
+	}
 	for k := range got {
 		if strings.HasPrefix(k, "!undecodable") {
 			res.Violation = vh.Fail("robust:undecodable-chunk", "%s", k)
